@@ -9,7 +9,7 @@ META = dict(
     level_note='Trusted: translator, shims, CBMC; floating-point expression trees are compared by structure (same operator tree on the '
                'same operands), so an algebraically equal re-association is reported as undecided after native replay, not as a violation; '
                'Surface::local_value and NaturalCoordinate::get_surface_point are contract stubs (any value).',
-    scope='get_temperature of uniform / adiabatic / linear for continental plate, oceanic plate, mantle layer, subducting plate, fault; chapman geotherm; half-space cooling model of the oceanic plate (age = ridge distance / spreading velocity); plume uniform and Gaussian temperature; uniform raw velocity and uniform grains of the area features; smooth composition of the subducting plate and of the fault (uniform composition of all families: C02); the ridge look-up Utilities::calculate_ridge_distance_and_spreading behind half-space / plate cooling',
+    scope='get_temperature of uniform / adiabatic / linear for continental plate, oceanic plate, mantle layer, subducting plate, fault; chapman geotherm; half-space cooling model of the oceanic plate (age = ridge distance / spreading velocity); plume uniform and Gaussian temperature; uniform raw velocity and uniform grains of all six feature families; smooth composition of the subducting plate and of the fault (uniform composition of all families: C02); the ridge look-up Utilities::calculate_ridge_distance_and_spreading behind half-space / plate cooling',
     not_covered=['the documented "min distance fault center" of the fault smooth composition (unused by the code, not part of the contract)', 'tian2019 water content, mass conserving slab temperature, random models (no closed form documented)', 'the Fourier-sum bodies of the plate model and the constant-age plate model (loops over the summation terms)'],
     enforced_elsewhere={},
 )
@@ -41,15 +41,20 @@ for fam, fdir, isf in [('SubductingPlate', 'subducting_plate', False), ('Fault',
             targets=[dict(tu='source/world_builder/features/%s_models/temperature/%s.cc' % (fdir, kfile),
                           qual='WorldBuilder::Features::%sModels::Temperature::%s::get_temperature' % (fam, kind))],
             outline_fp='all', defines=dd, expect_fail=['REACHABILITY-GUARD']))
-for fam, fdir in FAMILIES:
+for fam, fdir, _var in [(f, d, None) for f, d in FAMILIES] + [('Plume', 'plume', 'VARIANT_PLUME'), ('SubductingPlate', 'subducting_plate', 'VARIANT_DIST'), ('Fault', 'fault', 'VARIANT_DIST')]:
     fn = 'Features_%sModels_Velocity_UniformRaw_get_velocity' % fam
+    _vd = {'FAM': fam, 'WB_VEC_CAP': 2}
+    if _var:
+        _vd[_var] = 1
+    if fam == 'Fault':
+        _vd['IS_FAULT'] = 1
+    _vs = [] if _var else ['Objects_Surface_local_value', 'Objects_NaturalCoordinate_get_surface_point']
     UNITS.append(dict(
         name='%s_V_uniform_raw' % fdir, enforce=fn, contracts='c05_velocity_uniform_raw.c', harness='h_velocity',
         targets=[dict(tu='source/world_builder/features/%s_models/velocity/uniform_raw.cc' % fdir,
                       qual='WorldBuilder::Features::%sModels::Velocity::UniformRaw::get_velocity' % fam)],
-        stub=['Objects_Surface_local_value', 'Objects_NaturalCoordinate_get_surface_point'], nothrow=['Objects_NaturalCoordinate_get_surface_point'],
-        replace=['Objects_Surface_local_value', 'Objects_NaturalCoordinate_get_surface_point'],
-        outline_fp='all', defines={'FAM': fam, 'WB_VEC_CAP': 2}, expect_fail=['REACHABILITY-GUARD']))
+        stub=_vs, nothrow=['Objects_NaturalCoordinate_get_surface_point'] if _vs else [], replace=_vs,
+        outline_fp='all', defines=_vd, expect_fail=['REACHABILITY-GUARD']))
 UNITS.append(dict(
     name='plume_T_uniform', enforce='Features_PlumeModels_Temperature_Uniform_get_temperature', contracts='c05_plume_temperature.c', harness='h_plume_uniform',
     targets=[dict(tu='source/world_builder/features/plume_models/temperature/uniform.cc', qual='WorldBuilder::Features::PlumeModels::Temperature::Uniform::get_temperature')],
@@ -105,15 +110,21 @@ UNITS.append(dict(
                                     '__CPROVER_decreases(this_->compositions.n - i)')}))
 
 # uniform grains model of the area features (also what C15 says about fixed / normalised grain sizes)
-for _fam, _fdir in [('ContinentalPlate', 'continental_plate'), ('OceanicPlate', 'oceanic_plate'), ('MantleLayer', 'mantle_layer')]:
+for _fam, _fdir, _var in [('ContinentalPlate', 'continental_plate', None), ('OceanicPlate', 'oceanic_plate', None), ('MantleLayer', 'mantle_layer', None),
+                          ('Plume', 'plume', 'VARIANT_PLUME'), ('SubductingPlate', 'subducting_plate', 'VARIANT_DIST'), ('Fault', 'fault', 'VARIANT_DIST')]:
     _gfn = 'Features_%sModels_Grains_Uniform_get_grains' % _fam
+    _gd = {'FAM': _fam, 'MAXP': 4, 'WB_VEC_CAP': 2, 'WB_CAP_vec_uint': 4, 'WB_CAP_vec_double': 4, 'WB_CAP_vec_arr_arr_double_3_3': 4}
+    if _var:
+        _gd[_var] = 1
+    if _fam == 'Fault':
+        _gd['IS_FAULT'] = 1
+    _gs = [] if _var else ['Objects_Surface_local_value', 'Objects_NaturalCoordinate_get_surface_point']
     UNITS.append(dict(
         name='%s_G_uniform' % _fdir, enforce=_gfn, contracts='c05_grains_uniform.c', harness='h_grains_uniform',
         targets=[dict(tu='source/world_builder/features/%s_models/grains/uniform.cc' % _fdir,
                       qual='WorldBuilder::Features::%sModels::Grains::Uniform::get_grains' % _fam)],
-        stub=['Objects_Surface_local_value', 'Objects_NaturalCoordinate_get_surface_point'], nothrow=['Objects_NaturalCoordinate_get_surface_point'],
-        replace=['Objects_Surface_local_value', 'Objects_NaturalCoordinate_get_surface_point'],
-        defines={'FAM': _fam, 'MAXP': 4, 'WB_VEC_CAP': 2, 'WB_CAP_vec_uint': 4, 'WB_CAP_vec_double': 4, 'WB_CAP_vec_arr_arr_double_3_3': 4},
+        stub=_gs, nothrow=['Objects_NaturalCoordinate_get_surface_point'] if _gs else [], replace=_gs,
+        defines=_gd,
         expect_fail=['REACHABILITY-GUARD'], outline_fp='all',
         loops={(_gfn, 1): dict(contract='__CPROVER_assigns(i)\n'
                                         '__CPROVER_loop_invariant(i <= this_->compositions.n && (g_listed ==> i <= g_first))\n'
